@@ -1837,8 +1837,15 @@ def sym_concatenate(seq, axis=0, **kw):
 def sym_allclose(a, b, **kw):
     if not _has_sym(a, b):
         return _np.allclose(a, b, **kw)
-    # only used to decide whether to log a warning: result is an unconstrained boolean
-    return wrap(ctx().fresh("allclose", "bool"))
+    # flodym only uses allclose to decide whether to log a warning.  The result is an unconstrained boolean;
+    # one such boolean per path (all call sites answer alike), so both branches of every site are explored
+    # without multiplying the number of paths by two per call
+    c = ctx()
+    b = getattr(c, "_allclose_bool", None)
+    if b is None:
+        b = c.fresh("allclose", "bool")
+        c._allclose_bool = b
+    return wrap(b)
 
 
 def sym_diag_indices(n, ndim=2):
